@@ -36,9 +36,11 @@ CTC = [('IMPLIES', 'F0', 'F1'), ('OR', ('NOT', 'F1'), ('AND', 'F0', 'F1')), ('EX
 
 def model(shape, cards, names=None, with_attrs=True):
     n = R.n_features(shape)
-    names = names or ['F%d' % i for i in range(n)]
+    # default names and constraint names are deliberately NOT in sorted order: a writer that sorts one of the
+    # model's own lists in place (instead of a copy) must show up in the order-preserving snapshot
+    names = names or ['F%d' % (n - 1 - i) for i in range(n)]
     trees = [_ren(t, names) for t in CTC] if n >= 2 else []
-    m = R.build(shape, cards, names=names, abstract=[i % 2 == 1 for i in range(n)], ctcs=[R.ctc('c%d' % i, t) for i, t in enumerate(trees)])
+    m = R.build(shape, cards, names=names, abstract=[i % 2 == 1 for i in range(n)], ctcs=[R.ctc('c%d' % (len(trees) - i), t) for i, t in enumerate(trees)])
     if with_attrs:
         feats = _index(m)
         feats[0].add_attribute(Attribute('cost', Domain([Range(0, 9)], None), '3', '0'))
